@@ -350,3 +350,358 @@ def expand_locals(fn: ast.AST, e: ast.AST, params: set[str], depth: int = 0) -> 
             if len(defs) == 1:
                 out.extend(expand_locals(fn, defs[0], params, depth + 1))
     return out
+
+
+# --------------------------------------------------------------------------- round 3 (rules s - ac): algebra navigation, dispatch tables, name branches
+
+P_STEPS = ("p", "p1", "p2")  # the operand fields of an algebra node
+
+
+def const_strings(e: ast.AST, mod: Optional[Module] = None, depth: int = 0) -> Optional[set[str]]:
+    """the strings a collection expression holds: a tuple / list / set display of string constants, frozenset(...) / set(...) / tuple(...) / list(...)
+    of one, or a name bound exactly once, at module level, to such an expression (a table moved out of the function).  None: not such a collection"""
+    if isinstance(e, (ast.Tuple, ast.List, ast.Set)):
+        if all(isinstance(x, ast.Constant) and isinstance(x.value, str) for x in e.elts):
+            return {x.value for x in e.elts}  # type: ignore[attr-defined]
+        return None
+    if isinstance(e, ast.Call) and isinstance(e.func, ast.Name) and e.func.id in ("frozenset", "set", "tuple", "list") and len(e.args) == 1 and not e.keywords:
+        return const_strings(e.args[0], mod, depth)
+    if isinstance(e, ast.Name) and mod is not None and depth < 3:
+        binds = []
+        for n in ast.walk(mod.tree):
+            if isinstance(n, ast.Name) and n.id == e.id and isinstance(n.ctx, (ast.Store, ast.Del)):
+                binds.append(n)
+        if len(binds) != 1:
+            return None  # rebound somewhere (or a local of the same name): not a constant table
+        if any(isinstance(n, ast.Attribute) and isinstance(n.value, ast.Name) and n.value.id == e.id and isinstance(mod.parent.get(id(n)), ast.Call)
+               and mod.parent[id(n)].func is n for n in ast.walk(mod.tree)):  # type: ignore[attr-defined]
+            return None  # a method is called on it (it may be filled or changed at run time)
+        for st in mod.tree.body:
+            if isinstance(st, ast.Assign) and len(st.targets) == 1 and st.targets[0] is binds[0]:
+                return const_strings(st.value, mod, depth + 1)
+            if isinstance(st, ast.AnnAssign) and st.target is binds[0] and st.value is not None:
+                return const_strings(st.value, mod, depth + 1)
+    return None
+
+
+def name_tests(test: ast.AST, subject: str, mod: Optional[Module] = None) -> set[str]:
+    """the node names a test selects: K of `<subject>.name == "K"`, K1.. of `<subject>.name in <collection of "K1", ...>` (anywhere in the test, e.g. as a
+    conjunct); the collection is a display or a module-level constant table (see const_strings)"""
+    out: set[str] = set()
+    for t in ast.walk(test):
+        if isinstance(t, ast.Compare) and len(t.ops) == 1 and norm(t.left) == subject + ".name":
+            c = t.comparators[0]
+            if isinstance(t.ops[0], ast.Eq) and isinstance(c, ast.Constant) and isinstance(c.value, str):
+                out.add(c.value)
+            elif isinstance(t.ops[0], ast.In):
+                if isinstance(c, (ast.Tuple, ast.List, ast.Set)):
+                    out |= {x.value for x in c.elts if isinstance(x, ast.Constant) and isinstance(x.value, str)}
+                else:
+                    out |= const_strings(c, mod) or set()
+    return out
+
+
+def name_branches(fn: ast.AST, subject: str, mod: Optional[Module] = None) -> list[tuple[set[str], ast.If]]:
+    """every `if` of fn (nested defs excluded) whose test selects algebra / parse node names of `subject`"""
+    out = []
+    for n in own_nodes(fn):
+        if isinstance(n, ast.If):
+            ks = name_tests(n.test, subject, mod)
+            if ks:
+                out.append((ks, n))
+    return out
+
+
+def dispatch_table(mod: Module, fname: str = "evalPart") -> dict[str, str]:
+    """algebra node name -> name of the evaluator function: `if part.name == "K": return evalK(ctx, part)` chain of evalPart"""
+    f = mod.func(fname)
+    if len(f.args.args) < 2:
+        raise AnalysisError("%s: signature not recognised" % fname)
+    subj = f.args.args[1].arg
+    table: dict[str, str] = {}
+    for ks, br in name_branches(f, subj, mod):
+        for st in br.body:
+            if isinstance(st, ast.Return) and isinstance(st.value, ast.Call) and isinstance(st.value.func, ast.Name) \
+                    and any(isinstance(a, ast.Name) and a.id == subj for a in st.value.args):
+                for k in ks:
+                    table[k] = st.value.func.id
+    return table
+
+
+def root_name(e: ast.AST) -> Optional[str]:
+    """the local name an attribute / subscript / call chain starts from"""
+    while isinstance(e, (ast.Attribute, ast.Subscript, ast.Call)):
+        e = e.func if isinstance(e, ast.Call) else e.value
+    return e.id if isinstance(e, ast.Name) else None
+
+
+def local_values(fn: ast.AST, name: str) -> list[ast.expr]:
+    """the values assigned to local `name` in fn (plain and annotated assignments)"""
+    out = []
+    for a in own_nodes(fn):
+        if isinstance(a, ast.Assign) and any(isinstance(t, ast.Name) and t.id == name for t in a.targets):
+            out.append(a.value)
+        elif isinstance(a, ast.AnnAssign) and isinstance(a.target, ast.Name) and a.target.id == name and a.value is not None:
+            out.append(a.value)
+    return out
+
+
+def flag_polarity(test: ast.AST, node: str, flag: str) -> Optional[bool]:
+    """True: the test holds iff <node>.<flag> is set; False: iff it is not; None: the test does not read the flag.  Unmodelled forms raise."""
+    reads = [a for a in ast.walk(test) if isinstance(a, ast.Attribute) and a.attr == flag and norm(a.value) == node]
+    if not reads:
+        return None
+    t = test
+    if isinstance(t, ast.Attribute):
+        return True
+    if isinstance(t, ast.UnaryOp) and isinstance(t.op, ast.Not) and isinstance(t.operand, ast.Attribute):
+        return False
+    if isinstance(t, ast.Compare) and len(t.ops) == 1 and isinstance(t.left, ast.Attribute) and isinstance(t.comparators[0], ast.Constant) and isinstance(t.comparators[0].value, bool):
+        positive = isinstance(t.ops[0], (ast.Is, ast.Eq))
+        if not positive and not isinstance(t.ops[0], (ast.IsNot, ast.NotEq)):
+            raise AnalysisError("test of .%s not modelled: %s" % (flag, norm(test)))
+        return positive == t.comparators[0].value
+    raise AnalysisError("test of .%s not modelled: %s" % (flag, norm(test)))
+
+
+def leaves(stmts: list[ast.stmt]) -> bool:
+    """the block always ends in return / raise (a bare return counts: generators)"""
+    if not stmts:
+        return False
+    last = stmts[-1]
+    if isinstance(last, (ast.Return, ast.Raise)):
+        return True
+    if isinstance(last, ast.If):
+        return bool(last.orelse) and leaves(last.body) and leaves(last.orelse)
+    return False
+
+
+def established(mod: Module, fn: ast.AST, site: ast.AST, holds) -> bool:
+    """a fact is known at `site`: `holds(test)` answers (the fact follows when the test is true, the fact follows when the test is false) for the test
+    of an if / conditional expression / while; the site lies in the branch from which the fact follows, or an earlier statement of an enclosing block is
+    `if <test whose being false gives the fact>: ... return / raise` (a guard clause).  Dominance by structure, no names involved"""
+    child = site
+    for p in mod.parents(site):
+        if isinstance(p, (ast.If, ast.IfExp)):
+            in_body = child in p.body if isinstance(p, ast.If) else child is p.body
+            in_else = child in p.orelse if isinstance(p, ast.If) else child is p.orelse
+            if in_body or in_else:
+                when_true, when_false = holds(p.test)
+                if (when_true and in_body) or (when_false and in_else):
+                    return True
+        for field in ("body", "orelse", "finalbody"):
+            blk = getattr(p, field, None)
+            if isinstance(blk, list) and child in blk:
+                for prev in blk[: blk.index(child)]:
+                    if isinstance(prev, ast.If) and not prev.orelse and leaves(prev.body) and holds(prev.test)[1]:
+                        return True
+        if p is fn:
+            break
+        child = p
+    return False
+
+
+def flag_gated(mod: Module, fn: ast.AST, site: ast.AST, node: str, flag: str) -> bool:
+    """site is only reached when <node>.<flag> is set: it lies in the body of `if <flag set>` / the else of `if <flag not set>`, or an earlier
+    statement of an enclosing block is `if <flag not set>: ... return`"""
+
+    def holds(test: ast.AST) -> tuple[bool, bool]:
+        pol = flag_polarity(test, node, flag)
+        return pol is True, pol is False
+
+    return established(mod, fn, site, holds)
+
+
+def instance_test(subject: str, cls: str):
+    """`holds` function (see established) of the fact `<subject> is an instance of <cls>`: isinstance(<subject>, <cls>), its negation, as a conjunct of an
+    `and` (when true) or its negation as a disjunct of an `or` (when false)"""
+
+    def holds(test: ast.AST) -> tuple[bool, bool]:
+        if isinstance(test, ast.Call) and norm(test.func) == "isinstance" and len(test.args) == 2 and norm(test.args[0]) == subject:
+            names = type_names(test.args[1])
+            # being in one of several classes does not make it a <cls> when the test is what is left over
+            return cls in names, False
+        if isinstance(test, ast.UnaryOp) and isinstance(test.op, ast.Not):
+            t, f = holds(test.operand)
+            if t and isinstance(test.operand, ast.Call) and type_names(test.operand.args[1]) != {cls}:
+                t = False
+            return f, t
+        if isinstance(test, ast.BoolOp) and isinstance(test.op, ast.And):
+            return any(holds(v)[0] for v in test.values), False
+        if isinstance(test, ast.BoolOp) and isinstance(test.op, ast.Or):
+            return False, any(holds(v)[1] for v in test.values)
+        return False, False
+
+    return holds
+
+
+# --------------------------------------------------------------------------- the callable a key= expression evaluates to
+
+
+def resolve_callable(repo: Repo, mod: Module, name: str, at: ast.AST) -> Optional[tuple[Module, ast.FunctionDef]]:
+    """the function a bare name read at `at` refers to: a def nested in one of the enclosing functions (innermost first), else a module-level function of
+    `mod`, else one imported from another module of the package"""
+    for p in mod.parents(at):
+        if isinstance(p, (ast.FunctionDef, ast.AsyncFunctionDef)):
+            for n in own_nodes(p):
+                if isinstance(n, (ast.FunctionDef, ast.AsyncFunctionDef)) and n.name == name:
+                    return mod, n  # type: ignore[return-value]
+    return resolve_function(repo, mod, name)
+
+
+def _positional(f: ast.AST) -> list[str]:
+    return [a.arg for a in f.args.posonlyargs + f.args.args]  # type: ignore[attr-defined]
+
+
+def key_chain(repo: Repo, mod: Module, key: ast.AST, at: ast.AST) -> list[tuple[Module, ast.FunctionDef, Optional[str]]]:
+    """The functions of the package whose return value is the sort key when `key` is used as key= (of sorted / min / max) at `at`, outermost first, each with the
+    name of its parameter that carries the element being ordered (None if no argument depends on it).  `key` is a lambda whose body is a call of such a
+    function, or a name of one (nested def, module-level, imported); a function whose whole body is `return g(...)` hands on to g.  The last entry is the
+    function that computes the key.  [] for a key that is an expression or a builtin"""
+    out: list[tuple[Module, ast.FunctionDef, Optional[str]]] = []
+
+    def follow(m: Module, call: ast.AST, elem: set[str], site: ast.AST) -> None:
+        if len(out) > 4 or not (isinstance(call, ast.Call) and isinstance(call.func, ast.Name)):
+            return
+        r = resolve_callable(repo, m, call.func.id, site)
+        if r is None:
+            return
+        m2, g = r
+        params = _positional(g)
+        subject = None
+        for i, a in enumerate(call.args):
+            if i < len(params) and any(isinstance(x, ast.Name) and x.id in elem for x in ast.walk(a)):
+                subject = params[i]
+                break
+        if subject is None:
+            for k in call.keywords:
+                if k.arg and any(isinstance(x, ast.Name) and x.id in elem for x in ast.walk(k.value)):
+                    subject = k.arg
+                    break
+        enter(m2, g, subject)
+
+    def enter(m: Module, f: ast.FunctionDef, subject: Optional[str]) -> None:
+        if any(f is g for _m, g, _s in out):
+            return
+        out.append((m, f, subject))
+        body = [st for st in f.body if not (isinstance(st, ast.Expr) and isinstance(st.value, ast.Constant) and isinstance(st.value.value, str))]
+        if subject is not None and len(body) == 1 and isinstance(body[0], ast.Return) and body[0].value is not None:
+            follow(m, body[0].value, {subject}, body[0])
+
+    if isinstance(key, ast.Lambda):
+        follow(mod, key.body, {a.arg for a in key.args.posonlyargs + key.args.args}, at)
+    elif isinstance(key, ast.Name):
+        r = resolve_callable(repo, mod, key.id, at)
+        if r is not None:
+            ps = _positional(r[1])
+            enter(r[0], r[1], ps[0] if ps else None)
+    return out
+
+
+def sort_key_sites(repo: Repo, mods: Iterable[Module]) -> list[tuple[Module, ast.Call, list[tuple[Module, ast.FunctionDef, Optional[str]]]]]:
+    """every sorted(..., key=K) / min(..., key=K) / max(..., key=K) of the modules, with the chain of functions K evaluates to (key_chain)"""
+    out = []
+    for m in mods:
+        for c in ast.walk(m.tree):
+            if isinstance(c, ast.Call) and isinstance(c.func, ast.Name) and c.func.id in ("sorted", "min", "max"):
+                for k in c.keywords:
+                    if k.arg == "key":
+                        out.append((m, c, key_chain(repo, m, k.value, c)))
+    return out
+
+
+def term_key_functions(repo: Repo, ev: Module, ag: Module, sites) -> list[tuple[Module, ast.FunctionDef, str, list[ast.Return]]]:
+    """The key functions (last of each key chain of `sites`, see sort_key_sites) that order terms, each once, with the parameter carrying the term and its
+    `return`s that are reached only with that parameter known to be a Literal.  By role: the sorts of the evaluator the dispatch of evalPart names for the
+    OrderBy node and of the Accumulator classes (MIN, MAX) are over terms - a key function there without a case for literals is an AnalysisError; the key of
+    another sort takes part if it has such a case, and otherwise is not a key over terms (it orders triple patterns, numbers, ...)"""
+    try:
+        orderby = dispatch_table(ev).get("OrderBy")
+    except AnalysisError:
+        orderby = None
+    typed = repo.typed
+    out: dict[int, tuple[Module, ast.FunctionDef, str, list[ast.Return]]] = {}
+    for m, c, chain in sites:
+        if not chain:
+            continue
+        km, kfn, subject = chain[-1]
+        top = m.qual_of(c).split(".")[0]
+        by_role = (m is ev and orderby is not None and top == orderby) or (
+            m is ag and isinstance(m.defs.get(top), ast.ClassDef) and typed.is_subclass(m.name + "." + top, m.name + ".Accumulator"))
+        rets: list[ast.Return] = []
+        if subject is not None:
+            holds = instance_test(subject, "Literal")
+            rets = [r for r in own_nodes(kfn) if isinstance(r, ast.Return) and established(km, kfn, r, holds)]
+        if not rets:
+            if by_role:
+                raise AnalysisError("%s: branch for Literal not found" % kfn.name)
+            continue
+        out[id(kfn)] = (km, kfn, subject, sorted(rets, key=lambda r: r.lineno))  # type: ignore[arg-type]
+    return list(out.values())
+
+
+def subst_locals(fn: ast.AST, e: ast.AST, params: set[str], depth: int = 0) -> ast.AST:
+    """e with every local name that is bound exactly once in fn, by a plain assignment that is a statement of fn's own body (so on every path) and lies before
+    e, replaced by the value assigned (transitively): the expression in terms of the parameters.  Names bound more than once, or conditionally, stay"""
+    if depth > 4:
+        return e
+    fbody = getattr(fn, "body", [])
+
+    def single_def(name: str, before: int) -> Optional[ast.expr]:
+        stores = [n for n in ast.walk(fn) if isinstance(n, ast.Name) and n.id == name and isinstance(n.ctx, (ast.Store, ast.Del))]
+        if len(stores) != 1:
+            return None
+        for st in fbody:
+            if isinstance(st, ast.Assign) and len(st.targets) == 1 and st.targets[0] is stores[0] and st.lineno < before:
+                return st.value
+            if isinstance(st, ast.AnnAssign) and st.target is stores[0] and st.value is not None and st.lineno < before:
+                return st.value
+        return None
+
+    class Sub(ast.NodeTransformer):
+        def visit_Name(self, n: ast.Name):  # noqa: N802
+            if isinstance(n.ctx, ast.Load) and n.id not in params:
+                v = single_def(n.id, getattr(n, "lineno", 10 ** 9))
+                if v is not None:
+                    return subst_locals(fn, v, params, depth + 1)
+            return n
+
+        def visit_Lambda(self, n):  # noqa: N802
+            return n
+
+    import copy
+
+    return Sub().visit(copy.deepcopy(e))
+
+
+def stored_names(stmts: Iterable[ast.AST]) -> set[str]:
+    """every local name bound somewhere in the statements (assignment, loop / comprehension target, with, except)"""
+    out = set()
+    for s in stmts:
+        for n in ast.walk(s):
+            if isinstance(n, ast.Name) and isinstance(n.ctx, ast.Store):
+                out.add(n.id)
+    return out
+
+
+def walk_with_parents(e: ast.AST) -> Iterable[tuple[ast.AST, tuple[ast.AST, ...]]]:
+    stack: list[tuple[ast.AST, tuple[ast.AST, ...]]] = [(e, ())]
+    while stack:
+        n, ps = stack.pop()
+        yield n, ps
+        for c in ast.iter_child_nodes(n):
+            stack.append((c, ps + (n,)))
+
+
+def expand_all(fn: ast.AST, e: ast.AST, params: set[str], depth: int = 0, seen: Optional[set[str]] = None) -> list[ast.AST]:
+    """like expand_locals, but follows every assignment of a local (a name assigned on several paths, or re-assigned in terms of itself)"""
+    seen = set() if seen is None else seen
+    out = [e]
+    if depth > 4:
+        return out
+    for n in ast.walk(e):
+        if isinstance(n, ast.Name) and isinstance(n.ctx, ast.Load) and n.id not in params and n.id not in seen:
+            seen.add(n.id)
+            for v in local_values(fn, n.id):
+                out.extend(expand_all(fn, v, params, depth + 1, seen))
+    return out
